@@ -12,6 +12,12 @@ CHECKS = {
  "C02": ("runtime differential monitor: all pairs of generated version pools compared by the library and by the ecosystem's own implementation (node-semver, pip packaging, Rust semver, x/mod, Maven ComparableVersion; two-formulation models for Gem::Version/NuGet)",
          "Exploration: the live comparator is observed on every pair of reference-accepted pools and must give the reference's sign; the reference's normal form of every pool string must parse and compare equal. Reach = generators (respelled variants, hyphen/number/case/leading-zero identifiers, all PEP 440 spellings).",
          "Adapters trusted after self-test; Gem/NuGet are transcribed models; Maven reference is 3.8.7 on the quantifier's shape (qualifier+0 and dot-introduced qualifiers excluded, see DESIGN §3).", "§6 C02"),
+ "C03": ("runtime differential monitor: generated requirement strings x boundary-biased candidates answered by the library (Match, MatchVersion, resolve.MatchRequirement) and by node-semver / Rust VersionReq / packaging SpecifierSet / Maven VersionRange",
+         "Exploration: every (requirement, candidate) pair observed must get the reference's answer and no reference-non-empty requirement may be rejected; candidates are derived from the literals of each requirement (successor/predecessor in every position, prerelease variants). Five recorded divergences are identified by reduction-based class predicates (known_findings.json) and everything else is a fresh violation.",
+         "Adapters trusted after self-test; domain per the property's quantifier (PyPI final non-zero candidates, Maven candidates >= 0; Maven open-lower/below-zero upper bounds only as witness).", "§6 C03"),
+ "C17": ("runtime descriptor monitor: complete walk of the live protoreflect descriptors of api/v3 against api/v3alpha, own proto3 parser vs embedded descriptors (self-tested on protoc output), and seeded gRPC round trips v3 client -> v3alpha server over bufconn",
+         "Enumerates every v3 descriptor element (rpcs, http bindings, messages, fields, enums, values) and every declaration of both .proto files completely (exhaustive: true), and observes real wire exchanges in which every reachable v3 field/enum value/oneof arm is populated; resolver System constants compared with the enum.",
+         "The proto3 declaration parser is validated at start-up against three protoc-generated descriptors; a construct it does not understand is inconclusive, never a pass.", "§6 C17"),
 }
 NOT_YET = {}
 
